@@ -305,6 +305,7 @@ func (p *Prog) installRenames() []string {
 		return []string{"baseline inventory unreadable: " + err.Error()}
 	}
 	var notes []string
+	p.baseline = &base
 	cur := p.inventory()
 
 	// ---- types
@@ -476,4 +477,40 @@ func (p *Prog) installRenames() []string {
 	}
 	sort.Strings(notes)
 	return notes
+}
+
+// wrappedBaselineField: the owner type had, on the confirmed tree, exactly one field of the given (container) type that
+// no longer exists — the container was wrapped into a registry type held in a new field. Returns that field's name so
+// that obligations about the wrapped container keep the key they had ("" if there is no such field).
+func (p *Prog) wrappedBaselineField(owner string, inner types.Type) string {
+	if p.baseline == nil || inner == nil {
+		return ""
+	}
+	bt := p.baseline.Types[owner]
+	if bt == nil {
+		return ""
+	}
+	n := p.namedByKey(owner)
+	if n == nil {
+		return ""
+	}
+	st, ok := n.Underlying().(*types.Struct)
+	if !ok {
+		return ""
+	}
+	have := map[string]bool{}
+	for i := 0; i < st.NumFields(); i++ {
+		have[cFieldName(st.Field(i))] = true
+	}
+	want := types.TypeString(inner, relQual)
+	found := ""
+	for _, f := range bt.Fields {
+		if f.Type == want && !have[f.Name] {
+			if found != "" {
+				return ""
+			}
+			found = f.Name
+		}
+	}
+	return found
 }
